@@ -100,7 +100,8 @@ func (dpq *DelayedPriorityQueue) Enqueue(
 		dpq.mutex.Lock()
 		defer dpq.mutex.Unlock()
 		dpq.requestCounts[req.priority]--
-		return false, nil
+		// released at the very moment the TTL fired: the window slot was spent on this request
+		return !req.giveUp(), nil
 	}
 }
 
@@ -174,18 +175,19 @@ func (dpq *DelayedPriorityQueue) processQueueItems() {
 		dpq.cl.Logger.Trace().
 			Str("requestID", req.ID).
 			Msgf("Attempt to process queued request")
-		select {
-		case req.doneCh <- struct{}{}:
-			close(req.doneCh)
+		// The hand-off must not depend on the waiter being parked in its select already: a
+		// request that was pushed but has not reached the select yet would otherwise be dropped
+		// from the queue and left to expire although its turn had come.
+		if req.tryRelease() {
 			dpq.currentWindowCounter++
 			if verifhook.Enabled {
 				verifhook.Emit("dpq.released", req.ID)
 			}
 			dpq.cl.Logger.Trace().Str("requestID", req.ID).
 				Msgf("notified successful request processing to req.doneCh")
-		default:
+		} else {
 			dpq.cl.Logger.Trace().Str("requestID", req.ID).
-				Msgf("req.doneCh already closed")
+				Msgf("request already timed out")
 		}
 		dpq.cl.Logger.Trace().Msgf("request %s processed in queue", req.ID)
 	}
